@@ -188,9 +188,9 @@ def run_case(spec, ctx):
                           f"{rej.sum()} of {rows} own {how} boundary samples rejected by the boundary's "
                           f"_contains, e.g. { {kk: np.round(v[i], 6).tolist() for kk, v in e_own.items()} }")
     # far rows must be rejected, reference-certain boundary rows accepted
-    ext = _extended_edge_queries(E, penv, k)
-    if ext is not None:
-        env = geo.env32({kk: np.concatenate([env[kk], ext[kk]]) for kk in env})
+    for ext in (_extended_edge_queries(E, penv, k), _operand_boundary_queries(E, penv, k)):
+        if ext is not None:
+            env = geo.env32({kk: np.concatenate([env[kk], ext[kk]]) for kk in env})
     vals = _lib_contains(ctx, D, env, "_contains", top)
     if vals is not None and cond > 15:
         ctx.event("far-rows-skipped:ill-conditioned")
@@ -200,7 +200,14 @@ def run_case(spec, ctx):
         bad = (st_far == rg.OUT) & vals
         if bad.any():
             i = np.where(bad)[0][0]
-            ctx.violation("far-row-accepted", _blame_boundary(E, {kk: v[[i]] for kk, v in env.items()}, tol["tol_b"]),
+            # a row on a piece shared by two operand boundaries is named after the operation joining them
+            who = None
+            for i2 in np.where(bad)[0]:
+                who = geo.contact_op(E, {kk: v[[i2]] for kk, v in env.items()}, tol["tol_b"])
+                if who is None:
+                    i = i2
+                    break
+            ctx.violation("far-row-accepted", who or _blame_boundary(E, {kk: v[[i]] for kk, v in env.items()}, tol["tol_b"]),
                           f"{bad.sum()} rows farther than {100 * tol['tol_b']:.3g} from the boundary accepted, e.g. "
                           f"{ {kk: np.round(v[i], 6).tolist() for kk, v in env.items()} }")
         summary.update(far_rejected=int(((st_far == rg.OUT) & ~vals).sum()), own_accepted=own_ok)
@@ -229,6 +236,43 @@ def _blame_boundary(E, env1, tol):
     visit(A, env1)
     labs.sort()
     return labs[0][1] if labs else "?"
+
+
+def _operand_boundary_queries(E, penv, k):
+    """points on the boundary of every operand leaf of a Boolean combination: the pieces of an operand
+    boundary that lie inside / outside the other operand are NOT on the boundary of the result."""
+    A = E["a"] if E["t"] == "boundary" else None
+    if A is None or rg.has(A, lambda n: n["t"] == "product") or not rg.has(A, lambda n: n["t"] in ("union", "cut", "isect")):
+        return None
+    var = rg.space_vars(A)[0][0]
+    rows = max(k, 1)
+    out = {kk: [] for kk in list(penv.keys()) + [var]}
+
+    def visit(n, chain):
+        if n["t"] in rg.LEAVES:
+            if n["t"] == "point":
+                return
+            for i in range(rows):
+                pe1 = {kk: v[i:i + 1] for kk, v in penv.items()} if k else {}
+                pts = rg.leaf_boundary_points(n, geo._penv_for(n, pe1), 5)[0]
+                for node in chain:
+                    pe = {kk: np.repeat(v, len(pts), axis=0) for kk, v in pe1.items()}
+                    pts = rg.push_forward(node, pe, pts)
+                out[var].append(pts)
+                for kk in penv:
+                    out[kk].append(np.repeat(penv[kk][i:i + 1], len(pts), axis=0))
+        elif n["t"] in ("translate", "rotate"):
+            visit(n["a"], [n] + list(chain))
+        else:
+            for c in rg.children(n):
+                visit(c, chain)
+    try:
+        visit(A, [])
+    except (KeyError, ValueError):
+        return None
+    if not out[var]:
+        return None
+    return {kk: np.concatenate(v) for kk, v in out.items()}
 
 
 def _extended_edge_queries(E, penv, k):
@@ -272,3 +316,30 @@ def _extended_edge_queries(E, penv, k):
     if not out[var]:
         return None
     return {kk: np.concatenate(v) for kk, v in out.items()}
+
+
+def extra_cases(tier, seed):
+    """pinned Boolean boundaries whose operands share a boundary piece exactly (lattice coordinates), with
+    and without the `contained` / `disjoint` declarations."""
+    C = specs.const
+    A = {"t": "par", "var": "x", "o": C([0.0, 0.0]), "c1": C([2.0, 0.0]), "c2": C([0.0, 2.0])}
+    out = []
+    for op, rel, flags in (("cut", "notch", (False, True)), ("cut", "inside", (False, True)), ("cut", "attached", (False,)),
+                           ("union", "attached", (False,)), ("union", "apart", (False, True)), ("union", "notch", (False,)),
+                           ("isect", "notch", (False,)), ("isect", "same", (False,)), ("union", "same", (False,))):
+        for variant in (0, 1, 5):
+            for fl in flags:
+                node = {"t": op, "a": A, "b": specs._partner(A, rel, variant)}
+                if op == "union":
+                    node["disjoint"] = fl
+                if op == "cut":
+                    node["contained"] = fl
+                out.append({"dom": {"E": {"t": "boundary", "a": node}, "kind": "boundary", "pvars": [], "lattice": True, "far": False},
+                            "prows": {}, "rng": 11 + variant + seed})
+    I = {"t": "interval", "var": "u", "lo": C([-0.5]), "hi": C([1.5])}
+    for op, rel, fl in (("cut", "notch", True), ("cut", "inside", True), ("union", "attached", False), ("union", "apart", True)):
+        node = {"t": op, "a": I, "b": specs._partner(I, rel, 0)}
+        node["disjoint" if op == "union" else "contained"] = fl
+        out.append({"dom": {"E": {"t": "boundary", "a": node}, "kind": "boundary", "pvars": [], "lattice": True, "far": False},
+                    "prows": {}, "rng": 3 + seed})
+    return out
